@@ -100,3 +100,6 @@ def main():
 
 if __name__ == '__main__':
     main()
+    # word-level layer: regenerate lean/CB/Gen/Prim.lean (Rust -> Lean translation of primitives.rs / ConstChoice)
+    import translate
+    translate.main()
